@@ -626,7 +626,7 @@ def _selector_rules(ctx, prog, R, sel: FunctionInfo):
         chain = []
         for t, v, s, k in iter_stores(sel.node):
             if isinstance(t, ast.Name) and t.id == up.id:
-                chain.append((s.lineno, v, s))
+                chain.append((s._ord if hasattr(s, "_ord") else s.lineno, v, s))
         chain.sort(key=lambda x: x[0])
         txt = [canon(v) for _l, v, _s in chain]
         has_max_clamp = any(call_name(v) in ("np.minimum", "min") and "OPT[n_train_max]" in canon(v) for _l, v, _s in chain)
